@@ -119,8 +119,10 @@ func (c *Ctx) valueLanguage(v ssa.Value, fn *ssa.Function, depth int) (*rx.Lang,
 		}
 		// a flag variable of the command: which validation does it get?
 		if fa, ok := x.X.(*ssa.FieldAddr); ok {
-			if g, ok := fa.X.(*ssa.Global); ok {
-				return c.flagFieldLanguage(g, fa.Field)
+			if h := structHolder(fa.X, fn, 0); h != nil {
+				if l, w, why := c.flagFieldLanguage(h, fa.Field); l != nil || strings.HasPrefix(why, "REASSIGNED") || isGlobalValue(h) {
+					return l, w, why
+				}
 			}
 			// a field of a state struct (walk callback turned into a method, a table of templates):
 			// every store to that field in the repository must agree
@@ -228,13 +230,13 @@ func (c *Ctx) fieldLanguageOf(fv *types.Var, depth int) (*rx.Lang, string, strin
 
 // flagFieldLanguage: the language of a string flag bound to field fieldIdx of
 // global g, from the validation its command performs before running.
-func (c *Ctx) flagFieldLanguage(g *ssa.Global, fieldIdx int) (*rx.Lang, string, string) {
+func (c *Ctx) flagFieldLanguage(g ssa.Value, fieldIdx int) (*rx.Lang, string, string) {
 	// the field must hold what the user typed: no store to it besides the flag binding
 	for _, fn := range c.P.RepoFns {
 		reassigned := ""
 		allInstrs(fn, func(in ssa.Instruction) {
 			if st, ok := in.(*ssa.Store); ok {
-				if fa, ok := st.Addr.(*ssa.FieldAddr); ok && fa.X == ssa.Value(g) && fa.Field == fieldIdx {
+				if fa, ok := st.Addr.(*ssa.FieldAddr); ok && fa.Field == fieldIdx && structHolder(fa.X, fn, 0) == g {
 					if _, isConst := st.Val.(*ssa.Const); !isConst {
 						reassigned = load.FnName(fn)
 					}
@@ -260,7 +262,7 @@ func (c *Ctx) flagFieldLanguage(g *ssa.Global, fieldIdx int) (*rx.Lang, string, 
 						continue
 					}
 					fa, ok := u.X.(*ssa.FieldAddr)
-					if !ok || fa.X != ssa.Value(g) || fa.Field != fieldIdx {
+					if !ok || fa.Field != fieldIdx || structHolder(fa.X, entry, 0) != g {
 						continue
 					}
 					if c.callsSemverNewVersion(staticFn(&call.Call), 0) || isFn(staticCallee(&call.Call), semverPkg, "NewVersion") {
@@ -286,7 +288,7 @@ func (c *Ctx) flagFieldLanguage(g *ssa.Global, fieldIdx int) (*rx.Lang, string, 
 				return
 			}
 			fa, ok := call.Call.Args[1].(*ssa.FieldAddr)
-			if !ok || fa.X != ssa.Value(g) || fa.Field != fieldIdx {
+			if !ok || fa.Field != fieldIdx || structHolder(fa.X, fn, 0) != g {
 				return
 			}
 			if n, ok := constString(call.Call.Args[2]); ok {
@@ -315,6 +317,46 @@ func (c *Ctx) flagFieldLanguage(g *ssa.Global, fieldIdx int) (*rx.Lang, string, 
 		l, _ := rx.FullPattern("any text", `(?s).*`)
 		return l, "the unvalidated value of the --" + flagName + " flag (nothing restricts it before it is written)", ""
 	}
+}
+
+// structHolder: the struct a field address belongs to, when it is one known object: a package variable,
+// or a struct literal of the enclosing function reached directly, through the local variable that holds
+// its address, or through that variable captured by a closure. nil otherwise.
+func structHolder(v ssa.Value, fn *ssa.Function, d int) ssa.Value {
+	if d > 4 || fn == nil {
+		return nil
+	}
+	switch x := v.(type) {
+	case *ssa.Global:
+		return x
+	case *ssa.Alloc:
+		if _, ok := derefType(x.Type()).Underlying().(*types.Struct); ok {
+			return x
+		}
+	case *ssa.UnOp:
+		if x.Op != token.MUL {
+			return nil
+		}
+		cell := allocOf(x.X, fn)
+		if cell == nil {
+			return nil
+		}
+		var stored []ssa.Value
+		for _, r := range referrers(cell) {
+			if st, ok := r.(*ssa.Store); ok && st.Addr == ssa.Value(cell) {
+				stored = append(stored, st.Val)
+			}
+		}
+		if len(stored) == 1 {
+			return structHolder(stored[0], cell.Parent(), d+1)
+		}
+	}
+	return nil
+}
+
+func isGlobalValue(v ssa.Value) bool {
+	_, ok := v.(*ssa.Global)
+	return ok
 }
 
 func (c *Ctx) callsSemverNewVersion(fn *ssa.Function, depth int) bool {
